@@ -117,13 +117,17 @@ func (rt *runtime) cmplEvaluateNodeArrayLiteral(node *nodeArrayLiteral) Value {
 
 func (rt *runtime) cmplEvaluateNodeAssignExpression(node *nodeAssignExpression) Value {
 	left := rt.cmplEvaluateNodeExpression(node.left)
-	right := rt.cmplEvaluateNodeExpression(node.right)
-	rightValue := right.resolve()
-
-	result := rightValue
-	if node.operator != token.ASSIGN {
-		result = rt.calculateBinaryExpression(node.operator, left, rightValue)
+	if node.operator == token.ASSIGN {
+		result := rt.cmplEvaluateNodeExpression(node.right).resolve()
+		rt.putValue(left.reference(), result)
+		return result
 	}
+
+	// A compound assignment reads the left operand before the right one is
+	// evaluated (ES5 11.13.2).
+	leftValue := left.resolve()
+	rightValue := rt.cmplEvaluateNodeExpression(node.right).resolve()
+	result := rt.calculateBinaryExpression(node.operator, leftValue, rightValue)
 
 	rt.putValue(left.reference(), result)
 
